@@ -1223,7 +1223,7 @@ def demangle(names):
     return dict(zip(names, out))
 
 
-def translate(ll_path, roots_rx, boundary_rx, out_prefix, names=None, no_names=False, types=None, gnames=None, opt_names=None):
+def translate(ll_path, roots_rx, boundary_rx, out_prefix, names=None, no_names=False, types=None, gnames=None, opt_names=None, ptypes=None):
     """roots_rx / boundary_rx: regexes on demangled signatures. names: {c_alias: regex-on-demangled (must match exactly one function)}.
     Writes out_prefix_decl.h, out_prefix_body.c, out_prefix.json. Returns summary dict."""
     text = open(ll_path).read()
@@ -1335,6 +1335,14 @@ def translate(ll_path, roots_rx, boundary_rx, out_prefix, names=None, no_names=F
             decl.append('extern %s;' % em.ctype(gi['ty'], 'G_' + san(g)))
     for al, ln in talias.items():
         decl.append('typedef struct S_%s %s;' % (san(ln), al))
+    # type aliases taken from a function parameter: alias -> 'regex#k' (pointee type of parameter k; for closure types of lambdas)
+    for al, spec_ in (ptypes or {}).items():
+        rx, k = spec_.rsplit('#', 1)
+        hits = [n for n in em.protos if n in m.funcs and re.search(rx, dm[n])]
+        if len(hits) != 1: raise Unsupported('param type %s: %r matches %d functions' % (al, rx, len(hits)))
+        t = m.funcs[hits[0]].params[int(k)][0]
+        if t.k != 'ptr': raise Unsupported('param type %s: parameter %s is not a pointer' % (al, k))
+        decl.append('typedef %s;' % em.ctype(t.to, al))
     decl += protos
     # aliases
     alias = {}
@@ -1401,6 +1409,7 @@ def main():
     ap.add_argument('--name', action='append', default=[], help='alias=regex')
     ap.add_argument('--name-opt', dest='name_opt', action='append', default=[], help='alias=regex (optional: skipped when the unit does not contain the function)')
     ap.add_argument('--type', action='append', default=[], help='alias=qualified C++ class name')
+    ap.add_argument('--ptype', action='append', default=[], help='alias=regex#k : pointee type of parameter k of the matching function')
     ap.add_argument('--global', dest='gl', action='append', default=[], help='alias=llvm global name')
     ap.add_argument('--out')
     ap.add_argument('--list', action='store_true')
@@ -1413,7 +1422,7 @@ def main():
         return 0
     try:
         names = dict(x.split('=', 1) for x in a.name)
-        translate(a.ll, a.root, a.boundary, a.out, names, types=dict(x.split('=', 1) for x in a.type), gnames=dict(x.split('=', 1) for x in a.gl), opt_names=dict(x.split('=', 1) for x in a.name_opt))
+        translate(a.ll, a.root, a.boundary, a.out, names, types=dict(x.split('=', 1) for x in a.type), gnames=dict(x.split('=', 1) for x in a.gl), opt_names=dict(x.split('=', 1) for x in a.name_opt), ptypes=dict(x.split('=', 1) for x in a.ptype))
     except (Unsupported, SyntaxError, KeyError) as e:
         sys.stderr.write('ir2c: UNSUPPORTED: %s: %s\n' % (type(e).__name__, e))
         return 2
